@@ -62,25 +62,30 @@ def history_of(r):
 
 
 def emission_items():
-    """The emitted code must pass address operand + static offset to wait/notify (non-blocking outcomes)."""
+    """The emitted code must pass address operand + static offset to wait/notify, and the expected value and the
+    timeout unchanged.  One agent: a different cell value gives 1, an equal one gives 2 after the (short) timeout."""
     items = []
     for op, k, vt in (("memory.atomic.wait32", 4, "i32"), ("memory.atomic.wait64", 8, "i64")):
         for off in (0, 8, 4096):
-            body = [["local.get", 0], [vt + ".const", b32(0) if vt == "i32" else b64(0)], ["i64.const", b64(1000000)], [op, 2 if k == 4 else 3, off], ["end"]]
-            m = {"types": [{"p": ["i32"], "r": ["i32"]}, {"p": ["i32", "i32"], "r": ["i32"]}],
+            cst = (lambda n: b32(n)) if vt == "i32" else (lambda n: b64(n))
+            # w(addr, expected_low): wait(addr + off, expected, 2 ms)
+            body = [["local.get", 0], ["local.get", 1]] + ([["i64.extend_i32_u"]] if vt == "i64" else []) + [["i64.const", b64(2000000)], [op, 2 if k == 4 else 3, off], ["end"]]
+            m = {"types": [{"p": ["i32", "i32"], "r": ["i32"]}],
                  "funcs": [{"type": 0, "locals": [], "body": body},
-                           {"type": 1, "locals": [], "body": [["local.get", 0], ["local.get", 1], ["memory.atomic.notify", 2, off], ["end"]]}],
+                           {"type": 0, "locals": [], "body": [["local.get", 0], ["local.get", 1], ["memory.atomic.notify", 2, off], ["end"]]}],
                  "memory": {"min": 1, "max": 1, "shared": True},
-                 # cells: non-zero exactly at the effective addresses base+off for base = 64
-                 "data": [{"mode": "active", "offset": ["i32.const", b32(64 + off)], "bytes": [5, 0, 0, 0, 0, 0, 0, 0]}] if off else
-                         [{"mode": "active", "offset": ["i32.const", b32(64)], "bytes": [5, 0, 0, 0, 0, 0, 0, 0]}],
+                 # cells: the one at base + off holds 5 + off, the one at the bare base (when off # 0) holds 5
+                 "data": [{"mode": "active", "offset": ["i32.const", b32(64)], "bytes": [5, 0, 0, 0, 0, 0, 0, 0]}] +
+                         ([{"mode": "active", "offset": ["i32.const", b32(64 + off)], "bytes": list((5 + off).to_bytes(8, "little"))}] if off else []),
                  "exports": [{"name": "w", "kind": "func", "idx": 0}, {"name": "n", "kind": "func", "idx": 1},
                              {"name": "memory", "kind": "memory", "idx": 0}]}
+            call = lambda e, a, b: {"op": "call", "inst": 1, "export": e, "args": [{"t": "i32", "b": b32(a)}, {"t": "i32", "b": b32(b)}]}
             items.append({"id": "em_%s_%d" % (op.split(".")[-1], off), "module": m,
                           "script": [{"op": "instantiate", "binds": {"mem": 0, "table": 0, "globals": []}},
-                                     # cell at base+off is 5 != 0 -> "not-equal" (1) immediately; the bare address holds 0 and would block
-                                     {"op": "call", "inst": 1, "export": "w", "args": [{"t": "i32", "b": b32(64)}]},
-                                     {"op": "call", "inst": 1, "export": "n", "args": [{"t": "i32", "b": b32(64)}, {"t": "i32", "b": b32(3)}]}]})
+                                     call("w", 64, 5 + off),          # equal at the effective address: times out (2)
+                                     call("w", 64, 5),                # the value at the bare address: 1 unless off = 0
+                                     call("w", 64, 0), call("w", 64, off), call("w", 64, 5 + 2 * off), call("w", 64 - off if off <= 64 else 64, 5),
+                                     call("n", 64, 3), call("n", 64, 0)]})
     return items
 
 
@@ -138,7 +143,7 @@ def main():
     # 3. emission: static offset reaches the runtime (machine replay, non-blocking outcomes)
     futex_srcs = [os.path.join(REPO, "futex", f) for f in ("futex.c", "map.c", "list.c")]
     st, exp = machine.replay(v, emission_items(), [{"name": "gcc-O1", "cc": "gcc", "cflags": ("-O1",), "extra_srcs": futex_srcs}],
-                             sigfn=lambda it, k, why, b, e, a: "emit:static-offset-dropped" if it["id"].endswith(("_8", "_4096")) else "emit:" + it["id"])
+                             sigfn=lambda it, k, why, b, e, a: "emit:%s:%s" % (it["id"], why.split(":")[0]))
     cov = {"states": impl["distinct"] + tst["states"] + st["states"], "transitions": impl["generated"] + tst["transitions"] + st["transitions"],
            "traces_validated_against_impl": stats["histories"],
            "samples": [{"script": meta[j]["script"], "history": histories[j][:10]} for j in range(0, len(histories), max(1, len(histories) // 3))][:4],
